@@ -165,8 +165,11 @@ func main() {
 				per = (rem + workers - 1) / workers
 			}
 			if err := wave(agg, next, per, workers, 300*time.Second); err != nil {
+				// (what the other workers found stands; the trouble is reported
+				// next to it, or on its own as exit 2)
 				fmt.Fprintln(os.Stderr, "simdrive:", err)
-				os.Exit(2)
+				waveTrouble = err.Error()
+				break
 			}
 			next += uint64(per * workers)
 			done += per * workers
@@ -183,7 +186,8 @@ func main() {
 			t0 := time.Now()
 			if err := wave(agg, next, per, workers, 600*time.Second); err != nil {
 				fmt.Fprintln(os.Stderr, "simdrive:", err)
-				os.Exit(2)
+				waveTrouble = err.Error()
+				break
 			}
 			next += uint64(per * workers)
 			el := time.Since(t0).Seconds()
@@ -233,6 +237,9 @@ func main() {
 	knownSeen := []string{}
 	nViol := 0
 	var machinery []string
+	if waveTrouble != "" {
+		machinery = append(machinery, waveTrouble)
+	}
 	unconfirmed := 0
 	shrinkDeadline := time.Now().Add(240 * time.Second)
 	shrunk := 0
@@ -459,6 +466,10 @@ func workerEnv() []string {
 	}
 	return append(out, "GORACE="+goraceEnv, "GOMAXPROCS=1", "GODEBUG=asyncpreemptoff=1")
 }
+
+// waveTrouble: a worker that did not come back (watchdog) or whose output was
+// unreadable ended the exploration early.
+var waveTrouble string
 
 func wave(a *agg, from uint64, per, n int, timeout time.Duration) error {
 	var wg sync.WaitGroup
